@@ -21,9 +21,10 @@ enum Profile : int
     P_LOADFACTOR,
     P_CLEAR,
     P_SPREAD, // rr long runs for the statistical clause
+    P_BULK,   // hundreds of keys, large range operations (batch expiry, big purges, rehash-sized batches)
     P_NPROFILES
 };
-static const char* const profile_names[P_NPROFILES] = {"tiny", "churn", "recycle", "shape", "ranges", "ttl-edge", "aging", "noop", "loadfactor", "clear", "spread"};
+static const char* const profile_names[P_NPROFILES] = {"tiny", "churn", "recycle", "shape", "ranges", "ttl-edge", "aging", "noop", "loadfactor", "clear", "spread", "bulk"};
 inline int               profile_from_name(const std::string& s)
 {
     for (int i = 0; i < P_NPROFILES; ++i)
@@ -118,6 +119,10 @@ public:
                 c.universe                          = rng.range(c.cap + 1, std::min(200, 3 * c.cap + 4));
                 break;
             }
+            case P_BULK:
+                c.cap      = rng.range(16, 64);
+                c.universe = rng.range(150, 400);
+                break;
             case P_SPREAD: {
                 static const std::vector<int> caps = {2, 3, 5, 8};
                 c.cap                              = rng.pick(caps);
@@ -128,7 +133,7 @@ public:
                 c.cap      = 4;
                 c.universe = 6;
         }
-        if (rng.chance(1, 10) && profile != P_SPREAD && profile != P_LOADFACTOR)
+        if (rng.chance(1, 10) && profile != P_SPREAD && profile != P_LOADFACTOR && profile != P_BULK)
         {
             // eviction-free variant: every miss is attributable to erase / expiry alone
             p.evict_free = true;
@@ -140,6 +145,8 @@ public:
             if (profile == P_LOADFACTOR)
                 c.universe = rng.range(20, 100);
         }
+        if (profile == P_BULK)
+            p.evict_free = false;
         // time parameters
         if (profile == P_TTLEDGE || rng.chance(1, 2))
             c.ttl_ms = rng.pick(ttl_choices());
@@ -154,6 +161,11 @@ public:
         p.audit_skip_u                          = rng.chance(7, 10);
         if (profile == P_SPREAD)
             p.audit_mode = 2; // every eviction's victim must be resolved for the spread statistics
+        if (profile == P_BULK)
+        {
+            p.audit_mode = rng.chance(1, 2) ? 1 : 0; // an audit costs one lookup per key of the universe
+            p.nops       = rng.range(12, 40);
+        }
         plan                                    = p;
         phase                                   = 0;
         phase_left                              = 0;
@@ -216,6 +228,27 @@ public:
 
     void fill_items(const State& s, Op& op, int nmax, bool values)
     {
+        if (plan.profile == P_BULK && rng.chance(2, 3))
+        {
+            // a large batch of (mostly) consecutive distinct keys
+            int u     = (int)s.k.size();
+            int n     = rng.range(u / 4, u);
+            int start = (int)rng.below((uint64_t)u);
+            int64_t ttl = pick_ttl();
+            for (int i = 0; i < n; ++i)
+            {
+                Item it;
+                it.k = (start + i) % u;
+                if (values)
+                {
+                    it.v   = fresh_vid();
+                    it.ttl = rng.chance(1, 8) ? pick_ttl() : ttl;
+                }
+                op.items.push_back(it);
+            }
+            op.v = rng.below(4);
+            return;
+        }
         int  n    = (int)rng.below((uint64_t)nmax + 1);
         bool dups = rng.chance(1, 3);
         for (int i = 0; i < n; ++i)
@@ -356,6 +389,15 @@ public:
                 break;
             case P_CLEAR:
                 wCLEAR *= 6;
+                break;
+            case P_BULK:
+                wINS  = 6;
+                wINSR = 30;
+                wERAR = 8;
+                wFNDR = 14;
+                wFNDF = 8;
+                wFND  = 14;
+                wCLK *= 2;
                 break;
             case P_SPREAD:
                 wINS = 80, wINSR = 0, wERA = 0, wERAR = 0, wFND = 10, wFNDR = 2, wFNDF = 0;
